@@ -4,26 +4,35 @@
                          an `if` per filter, append / index-assign / return elt[,true], trailing return)
    lower_forphrase     : cl/stmt.go compileForPhraseStmt (container form)
    lower_send          : cl/stmt.go compileSendStmt + isAppendable (slice target: a = append(a, v...))
-   spec_*              : the documented meaning, as a definitional interpreter of the sugar over pure
-                         operand expressions (pev): nested loops, outermost = last phrase, filter after
-                         binding, results accumulated in iteration order, first match for select/exists *)
+   spec_*              : the documented meaning, as a definitional interpreter of the sugar: nested
+                         loops, outermost = last phrase, filter after binding, results accumulated in
+                         iteration order, first match for select/exists.
+
+   An operand (container, filter, element) is a MiniGo expression together with its meaning, a function
+   of the USER-visible environment (compiler-generated names are stripped) and the trace so far:
+     pure_op e          constants, user variables, probe calls, arithmetic (pev)
+     comp_op k zero ps  a NESTED comprehension (or a func literal with a for-in loop building the same
+                        value) used as an operand: its expression is its own lowering, its meaning its own
+                        spec_comprehension -- to any depth, since ps may again contain comp_op operands. *)
 From Coq Require Import List ZArith NArith Bool.
 Import ListNotations.
 From V Require Import Base.Prelude Model.MiniGo.
 Open Scope Z_scope.
 
+Record operand := { op_e : expr; op_f : env -> trace -> option (val * trace) }.
+
 (* for k, v <- x if cond     (k optional; v = None is the blank identifier `_`) *)
-Record phrase := { ph_key : option name; ph_val : option name; ph_x : expr; ph_cond : option expr }.
+Record phrase := { ph_key : option name; ph_val : option name; ph_x : operand; ph_cond : option operand }.
 
 Inductive ckind :=
-  | CList (elt : expr)                    (* [elt for ...]            *)
-  | CMap (k v : expr)                     (* {k: v for ...}           *)
-  | CSelect (elt : expr) (two : bool)     (* {elt for ...}  / v, ok := {elt for ...} *)
-  | CExists.                              (* {for ...}                *)
+  | CList (elt : operand)                    (* [elt for ...]            *)
+  | CMap (k v : operand)                     (* {k: v for ...}           *)
+  | CSelect (elt : operand) (two : bool)     (* {elt for ...}  / v, ok := {elt for ...} *)
+  | CExists.                                 (* {for ...}                *)
 
 Definition wrap (p : phrase) (inner : stmt) : stmt :=
-  SRange (ph_key p) (ph_val p) (ph_x p)
-         match ph_cond p with Some c => SIf c inner SSkip | None => inner end.
+  SRange (ph_key p) (ph_val p) (op_e (ph_x p))
+         match ph_cond p with Some c => SIf (op_e c) inner SSkip | None => inner end.
 
 (* phrases in source order: the first is the innermost loop *)
 Fixpoint nest (ps : list phrase) (inner : stmt) : stmt :=
@@ -40,9 +49,9 @@ Definition results_of (k : ckind) (zero : val) : list (name * val) :=
 
 Definition innermost (k : ckind) : stmt :=
   match k with
-  | CList elt => SAssign [NRet 0] [EAppend (EVar (NRet 0)) elt]
-  | CMap ke ve => SSetIndex (NRet 0) ke ve
-  | CSelect elt two => SReturn (elt :: if two then [EConst (VBool true)] else [])
+  | CList elt => SAssign [NRet 0] [EAppend (EVar (NRet 0)) (op_e elt)]
+  | CMap ke ve => SSetIndex (NRet 0) (op_e ke) (op_e ve)
+  | CSelect elt two => SReturn (op_e elt :: if two then [EConst (VBool true)] else [])
   | CExists => SReturn [EConst (VBool true)]
   end.
 
@@ -81,6 +90,12 @@ Fixpoint pev (en : env) (e : expr) : option (val * trace) :=
   | _ => None
   end.
 
+Definition pure_op (e : expr) : operand :=
+  {| op_e := e; op_f := fun en tr => match pev en e with Some (v, t) => Some (v, tr ++ t) | None => None end |}.
+
+(* the user-visible part of an environment *)
+Definition strip (en : env) : env := filter (fun p => is_user (fst p)) en.
+
 (* ---------------------------------------------------------------- the documented meaning *)
 (* state of a comprehension: the accumulated value; a body either continues with a new state or
    returns (select / exists) *)
@@ -100,9 +115,9 @@ Definition spec_items (p : phrase) (F : body_fn) (en : env) : list (val * val) -
       let en' := bind_kv p kv vv en in
       let run := match ph_cond p with
                  | None => F en' acc tr
-                 | Some c => match pev en' c with
-                             | Some (VBool true, tc) => F en' acc (tr ++ tc)
-                             | Some (VBool false, tc) => Some (Cont acc, tr ++ tc)
+                 | Some c => match op_f c en' tr with
+                             | Some (VBool true, tr1) => F en' acc tr1
+                             | Some (VBool false, tr1) => Some (Cont acc, tr1)
                              | _ => None
                              end
                  end in
@@ -114,10 +129,10 @@ Definition spec_items (p : phrase) (F : body_fn) (en : env) : list (val * val) -
 
 Definition spec_wrap (p : phrase) (F : body_fn) : body_fn :=
   fun en acc tr =>
-    match pev en (ph_x p) with
-    | Some (c, tx) =>
+    match op_f (ph_x p) en tr with
+    | Some (c, tr1) =>
       match range_of c with
-      | Items l => spec_items p F en l acc (tr ++ tx)
+      | Items l => spec_items p F en l acc tr1
       | _ => None
       end
     | None => None
@@ -131,22 +146,22 @@ Definition spec_inner (k : ckind) : body_fn :=
   fun en acc tr =>
     match k with
     | CList elt =>
-      match acc, pev en elt with
-      | VList l, Some (v, t) => Some (Cont (VList (l ++ [v])), tr ++ t)
+      match acc, op_f elt en tr with
+      | VList l, Some (v, tr1) => Some (Cont (VList (l ++ [v])), tr1)
       | _, _ => None
       end
     | CMap ke ve =>
-      match acc, pev en ke with
-      | VMap l, Some (kv, tk) =>
-        match pev en ve with
-        | Some (vv, tv) => Some (Cont (VMap (map_set l kv vv key_eqb)), (tr ++ tk) ++ tv)
+      match acc, op_f ke en tr with
+      | VMap l, Some (kv, tr1) =>
+        match op_f ve en tr1 with
+        | Some (vv, tr2) => Some (Cont (VMap (map_set l kv vv key_eqb)), tr2)
         | None => None
         end
       | _, _ => None
       end
     | CSelect elt two =>
-      match pev en elt with
-      | Some (v, t) => Some (Done (v :: if two then [VBool true] else []), tr ++ t)
+      match op_f elt en tr with
+      | Some (v, tr1) => Some (Done (v :: if two then [VBool true] else []), tr1)
       | None => None
       end
     | CExists => Some (Done [VBool true], tr)
@@ -155,7 +170,7 @@ Definition spec_inner (k : ckind) : body_fn :=
 Definition spec_init (k : ckind) (zero : val) : val :=
   match k with CList _ => VList [] | CMap _ _ => VMap [] | CSelect _ _ => zero | CExists => VBool false end.
 
-(* the value(s) of the comprehension *)
+(* the value(s) of the comprehension, in the user-visible environment en *)
 Definition spec_comprehension (k : ckind) (zero : val) (ps : list phrase) (en : env) (tr : trace) : option (list val * trace) :=
   match spec_nest ps (spec_inner k) en (spec_init k zero) tr with
   | Some (Cont acc, tr') =>
@@ -166,3 +181,11 @@ Definition spec_comprehension (k : ckind) (zero : val) (ps : list phrase) (en : 
   | Some (Done vs, tr') => Some (vs, tr')
   | None => None
   end.
+
+(* a (single-valued) comprehension used as an operand of another phrase / comprehension *)
+Definition comp_op (k : ckind) (zero : val) (ps : list phrase) : operand :=
+  {| op_e := lower_comprehension k zero ps;
+     op_f := fun en tr => match spec_comprehension k zero ps en tr with
+                          | Some ([v], tr') => Some (v, tr')
+                          | _ => None
+                          end |}.
